@@ -214,6 +214,21 @@ theorem binS_sound (w : World) (chk : Bool) (op : BinOp) {x y : SVal} {vx vy : V
             rw [isConst_den _ _ _ _ hxa, isConst_den _ _ _ _ hya]
             simp only [evalBin, hg, if_false]
             exact ⟨_, rfl, by simp [Matches]⟩
+          · rename_i hxa hya
+            split at h
+            · exact absurd h (by simp)
+            · rename_i hnt
+              injection h with h; subst h
+              rw [isConst_den _ _ _ _ hxa]
+              simp only [evalBin, hg, if_false]
+              refine ⟨_, rfl, ?_⟩
+              simp only [Matches]
+              rw [nonzero_spec _ _ _ hnt]
+              congr 1
+              by_cases hz : den w.raw w.fv b = 0
+              · simp [hz]
+              · have : 0 < den w.raw w.fv b := by omega
+                simp [hz, this]
           · exact absurd h (by simp)
       | bxor =>
         simp only [binS] at h
